@@ -59,6 +59,15 @@ def matching_time_indices(stamps_1: np.ndarray, stamps_2: np.ndarray,
         diffs = np.abs(stamps_2 - stamp_1)
         index_2 = int(np.argmin(diffs))
         if diffs[index_2] <= max_diff:
+            if matching_indices_2 and matching_indices_2[-1] == index_2:
+                # stamps_2[index_2] is already matched (with ascending stamps,
+                # repeated matches are adjacent): use it only once, for the
+                # closer one of the two candidates.
+                previous_diff = abs(stamps_2[index_2] -
+                                    stamps_1[matching_indices_1[-1]])
+                if diffs[index_2] < previous_diff:
+                    matching_indices_1[-1] = index_1
+                continue
             matching_indices_1.append(index_1)
             matching_indices_2.append(index_2)
     return matching_indices_1, matching_indices_2
